@@ -35,10 +35,13 @@ def build_native(root, out, cpp, objs, exe, extra_src=()):
     return None
 
 
-def trace_values(doc):
+def trace_values(doc, first=False):
+    """lhs -> value; last assignment wins, or the first one (initial state of objects that the function under contract modifies)"""
     vals = {}
     for k, v in doc.get('inputs', []):
-        vals[k] = v           # last assignment wins
+        if first and k in vals:
+            continue
+        vals[k] = v
     return vals
 
 
